@@ -3,7 +3,7 @@ import json
 from lib import vlib
 
 RULE = ("documents: every symbol string up to MaxLen over a 17-symbol alphabet (structural characters, quote, backslash, letter, "
-        "digits, minus, point, exponent, true, null, space) with the verdict of the TLA+ RFC 8259 recogniser; encoding/json is "
+        "digits, minus, point, exponent, true, null, space, \\u escapes incl. lone surrogates) and every quoted string body up to 5 (thorough 6) string symbols, with the verdict of the TLA+ RFC 8259 recogniser; encoding/json is "
         "evaluated side by side (a disagreement between the two oracles is a spec bug, not a violation); Valid / Unmarshal value / "
         "Compact / Indent compared; trees: every value tree of depth <= 2 over 24 leaf kinds of every uGO type: Marshal must return "
         "an error or valid JSON, for representable trees the bytes of encoding/json and a faithful round trip; "
@@ -17,10 +17,12 @@ def run(ctx):
     ctx.tlc("UgoJson", "UgoJson_quick" if ctx.quick else "UgoJson_thorough", env=dict(OUT=out), timeout=2400, name="json-docs")
     tout = ctx.path("trees.ndjson")
     ctx.tlc("UgoJson", "UgoJson_trees", env=dict(OUT=tout), timeout=600, name="json-trees")
-    ndocs = sum(1 for _ in open(out))
-    nacc = sum(1 for l in open(out) if 'accept\\":true' in l)
+    sout = ctx.path("strs.ndjson")
+    ctx.tlc("UgoJson", "UgoJson_strbody" if ctx.quick else "UgoJson_strbody_t", env=dict(OUT=sout), timeout=1200, name="json-strings")
+    ndocs = sum(1 for _ in open(out)) + sum(1 for _ in open(sout))
+    nacc = sum(1 for l in open(out) if 'accept\\":true' in l) + sum(1 for l in open(sout) if 'accept\\":true' in l)
     ntrees = sum(1 for _ in open(tout))
-    for label, path in (("docs", out), ("trees", tout)):
+    for label, path in (("docs", out), ("strings", sout), ("trees", tout)):
         res = ctx.path("res-%s.ndjson" % label)
         ctx.vh("c17", path, res)
         for r in vlib.read_ndjson(res):
